@@ -19,9 +19,12 @@ pub fn bucket_range(i: usize) -> (Distance, Distance) {
     BucketIndex(i).range()
 }
 
-/// The bucket visiting order of `ClosestBucketsIter::new(d)`.
-pub fn closest_buckets_order(d: Distance) -> Vec<usize> {
-    ClosestBucketsIter::new(d).map(|i| i.get()).collect()
+/// The first `limit` items of the bucket visiting order of `ClosestBucketsIter::new(d)`.
+pub fn closest_buckets_order(d: Distance, limit: usize) -> Vec<usize> {
+    ClosestBucketsIter::new(d)
+        .take(limit)
+        .map(|i| i.get())
+        .collect()
 }
 
 /// What `KBucketsTable::entry` returned.
@@ -166,15 +169,17 @@ impl Table {
         self.0.bucket(key).map(|b| Self::view(usize::MAX, &b))
     }
 
-    /// `closest_keys(target).collect()`
-    pub fn closest_keys(&mut self, target: &KeyBytes) -> Vec<KeyBytes> {
-        self.0.closest_keys(target).collect()
+    /// `closest_keys(target).take(limit).collect()` (the limit only guards the caller against
+    /// an iterator that never ends)
+    pub fn closest_keys(&mut self, target: &KeyBytes, limit: usize) -> Vec<KeyBytes> {
+        self.0.closest_keys(target).take(limit).collect()
     }
 
-    /// `closest(target)` as (key, status)
-    pub fn closest(&mut self, target: &KeyBytes) -> Vec<(KeyBytes, NodeStatus)> {
+    /// `closest(target).take(limit)` as (key, status)
+    pub fn closest(&mut self, target: &KeyBytes, limit: usize) -> Vec<(KeyBytes, NodeStatus)> {
         self.0
             .closest(target)
+            .take(limit)
             .map(|e| (e.node.key, e.status))
             .collect()
     }
